@@ -579,6 +579,49 @@ def _middleware_contracts():
                  assumes=["functools.partial(f, g)(*a, **k) == f(g, *a, **k); each middleware calls `next` as documented (checked at run time by the stand-in)"])]
 
 
+def _merge_contracts():
+    """collect_fields._merge(groups, into=...): response keys keep the place of their FIRST occurrence (the order of `into` is the order in which top-level mutation fields run
+    and in which every result lists its keys), nothing collected earlier is lost, every collected group is appended once, in order."""
+    def body(p):
+        ev = list(p.events)
+        i = next((k for k, e in enumerate(ev) if e.startswith("for[")), None)
+        if i is None:
+            return None
+        j = next((k for k in range(i + 1, len(ev)) if ev[k] in ("}", "}!")), len(ev))
+        return ev[i + 1:j]
+
+    def never_removes(p):
+        return not any(e == "remove" for e in p.events)
+
+    def fresh_list_only_for_new_keys(p):
+        b = body(p)
+        if not b or "store:fresh" not in b:
+            return None
+        return p.assumed("key not in into") is True or p.assumed("key in into") is False
+
+    def appended_once(p):
+        b = body(p)
+        if b is None or p.outcome != "return":
+            return None
+        if b == []:
+            return True
+        return count(b, "extend") + count(b, "store:concat") == 1
+
+    import ast
+
+    def store_label(m, av=None):
+        return "store:fresh" if isinstance(av, T.Const) or (getattr(av, "text", "") or "").replace(" ", "") in ("[]", "list()") else "store:concat"
+
+    return [dict(id="collect_fields._merge", target="py_gql.utilities.collect_fields:_merge", props=["C04", "C09"],
+                 config=Config(events=[(r"^into\.(pop|popitem|clear|move_to_end)$", "remove"), (r"^into\[key\]\.extend$|^into\.setdefault\(key, \[\]\)\.extend$|^bucket\.extend$", "extend")],
+                               stmt_events=[(r"^into\[key\]$", store_label)],
+                               nothrow=[r"\.extend$", r"\.items$", r"\.setdefault$", r"\.get$"]),
+                 clauses=[("keys-keep-their-first-position", "no key is ever removed from (and so re-inserted at the end of) the grouping being merged into", never_removes),
+                          ("nothing-collected-earlier-is-lost", "a fresh empty list is stored under a key only when the key is not there yet", fresh_list_only_for_new_keys),
+                          ("every-group-appended-once", "each collected group is appended to its key exactly once per iteration", appended_once)],
+                 assumes=["dict preserves insertion order and assignment to an existing key keeps its position (Python 3.7+ / OrderedDict)"])]
+
+
 def _stage_word(p):
     return [e for e in p.events if e in STAGES or e in STAGES.values()]
 
@@ -1645,4 +1688,4 @@ TRACE_CONTRACTS = [
     _extend_contract("_extend_enum_type", [("value.name.value in value_names", "value_names")]),
     _extend_contract("_extend_union_type", [("type_def.name.value in member_names", "member_names")]),
     _extend_contract("_extend_input_object_type", [("ext_field.name.value in field_names", "field_names")], inner="fields"),
-] + _multi_contracts() + _chained_contracts() + _middleware_contracts()
+] + _multi_contracts() + _chained_contracts() + _middleware_contracts() + _merge_contracts()
